@@ -505,3 +505,76 @@ func TestC18_UDP(t *testing.T) {
 }
 
 var _ sync.Mutex
+
+// ---- serving stops only after its handlers -------------------------------------------------------
+// The listener closes right after it has handed out a connection (a shutdown that lands between two accepts):
+// StreamServe must not return before the handler of every connection it accepted has returned.
+
+type C18Stop struct {
+	Backlog    int `json:"backlog"`     // connections waiting before serving starts
+	CloseAfter int `json:"close_after"` // the listener is closed as soon as this many were accepted
+	HandleMs   int `json:"handle_ms"`
+}
+
+func genC18Stop(t *rapid.T) C18Stop {
+	c := C18Stop{Backlog: rapid.IntRange(1, 6).Draw(t, "backlog"), HandleMs: rapid.SampledFrom([]int{1, 5, 20}).Draw(t, "handleMs")}
+	c.CloseAfter = rapid.IntRange(1, c.Backlog).Draw(t, "closeAfter")
+	return c
+}
+
+func runC18Stop(c C18Stop, info *kit.Info) *kit.Finding {
+	l, err := kit.ListenTCPLow(&net.TCPAddr{IP: net.IPv4(127, 0, 0, 1)})
+	if err != nil {
+		info.Skipped = err.Error()
+		return nil
+	}
+	defer l.Close()
+	var clients []net.Conn
+	defer func() {
+		for _, cn := range clients {
+			cn.Close()
+		}
+	}()
+	for i := 0; i < c.Backlog; i++ {
+		cn, err := kit.DialTCP(l.Addr().String(), 3*time.Second)
+		if err != nil {
+			info.Skipped = err.Error()
+			return nil
+		}
+		clients = append(clients, cn)
+	}
+	var accepted, finished atomic.Int32
+	accept := func() (transport.StreamConn, error) {
+		cn, err := l.AcceptTCP()
+		if err != nil {
+			return nil, err
+		}
+		if int(accepted.Add(1)) == c.CloseAfter {
+			l.Close()
+		}
+		return cn, nil
+	}
+	done := make(chan int32, 1)
+	go func() {
+		service.StreamServe(accept, func(ctx context.Context, conn transport.StreamConn) {
+			time.Sleep(time.Duration(c.HandleMs) * time.Millisecond)
+			finished.Add(1)
+		})
+		done <- finished.Load()
+	}()
+	select {
+	case atReturn := <-done:
+		if a := accepted.Load(); atReturn < a {
+			return kit.Violation("robust:serving-stopped-before-handlers", "the listener closed right after connection %d was accepted; StreamServe returned when %d of %d accepted connections had been handled to the end (a handler was still running, or had not even started)", c.CloseAfter, atReturn, a)
+		}
+	case <-time.After(5 * time.Second):
+		return kit.Violation("robust:handle-did-not-return", "StreamServe did not return within 5 s of its listener closing")
+	}
+	info.NonTrivial, info.Steps = true, c.Backlog
+	return nil
+}
+
+func TestC18_ServeStop(t *testing.T) {
+	p := kit.Prop[C18Stop]{ID: "C18", Name: "ServeStop", Quick: 120, Thorough: 20000, Gen: genC18Stop, Run: runC18Stop}
+	p.Execute(t)
+}
